@@ -26,14 +26,22 @@ def fresh(sp_pristine):
     return c
 
 
+ATTRS = ('type', 'ttc', 'tags', 'meta', 'requires')
+
+
+def _view(d):
+    out = {k: d.get(k) for k in ATTRS}
+    out['reaches'] = d['reaches']['stepExpressions'] if d.get('reaches') else []
+    return out
+
+
 def resolver(lg, t):
     """the step resolver named by the property; public fallback if it is ever renamed"""
     if hasattr(lg, '_get_attacks_for_asset_type'):
         r = lg._get_attacks_for_asset_type(t)
-        return {n: (d['reaches']['stepExpressions'] if d.get('reaches') else []) for n, d in r.items()}
+        return {n: _view(d) for n, d in r.items()}
     a = lg.get_asset_by_name(t)
-    return {s.name: (s.attributes['reaches']['stepExpressions'] if s.attributes.get('reaches') else [])
-            for s in a.attack_steps}
+    return {s.name: _view(s.attributes) for s in a.attack_steps}
 
 
 def observe(c, types):
@@ -43,8 +51,7 @@ def observe(c, types):
     pub = {}
     for t in types:
         a = c.lg.get_asset_by_name(t)
-        pub[t] = {s.name: (s.attributes['reaches']['stepExpressions'] if s.attributes.get('reaches') else [])
-                  for s in a.attack_steps}
+        pub[t] = {s.name: _view(s.attributes) for s in a.attack_steps}
     o['public'] = json.dumps(pub, sort_keys=True)
     return o
 
@@ -85,11 +92,14 @@ def expected_answers(sp, types):
     exp = {}
     for t in types:
         r = inherit.resolve(sp, t)
-        exp[t] = {n: d['reaches'] for n, d in r.items()}
+        exp[t] = {}
+        for n, d in r.items():
+            exp[t][n] = {k: d['decl'].get(k) for k in ATTRS}
+            exp[t][n]['reaches'] = d['reaches']
         # the two formulations of the reference must agree (oracle self-check)
         for n in exp[t]:
             alt = inherit.resolve_bottom_up(sp, t, n)
-            if alt != exp[t][n]:
+            if alt != exp[t][n]['reaches']:
                 raise RuntimeError(f'reference formulations disagree on {t}.{n}: {alt} vs {exp[t][n]}')
     return exp
 
@@ -122,7 +132,7 @@ def check_language(job):
                        if exp[t].get(n) != got.get(t, {}).get(n)]
                 t, n = bad[0]
                 return common.Violation(
-                    f'wrong_fold:{part}:' + (op[0] if op else 'load'),
+                    f'wrong_fold:{part}:' + (op[0] if op else 'load') + ':' + _what(exp[bad[0][0]].get(bad[0][1]), got.get(bad[0][0], {}).get(bad[0][1])),
                     f'steps exposed by {t} differ from the root-down fold (step {n})',
                     case=case(hist, op), expected=exp[t].get(n), observed=got.get(t, {}).get(n))
         return None
@@ -171,6 +181,12 @@ def check_language(job):
     return stats, viols[:10], closed_at
 
 
+def _what(a, b):
+    if not isinstance(a, dict) or not isinstance(b, dict):
+        return 'step_set'
+    return '+'.join(k for k in list(ATTRS) + ['reaches'] if a.get(k) != b.get(k))
+
+
 def _diff(a, b, path=''):
     if type(a) is not type(b):
         return f'{path}: {a!r} -> {b!r}'
@@ -193,7 +209,7 @@ def run(tier, seed):
                 '-> / +> to each inheritance level); transitions = resolve(T), regenerate, rebuild language '
                 'graph, build classes, generate attack graphs; BFS until no new observable state '
                 '(closure) - a pure implementation closes at depth 1 with one state per language')
-    res.assumptions = ['metadata carried by a redefinition is not compared, only the reaches fold']
+    res.assumptions = ["every level declares the step with its own tags / meta / TTC: '->' must replace them, '+>' and a bare re-declaration must keep the inherited ones"]
     jobs = [(s, False) for s in families.inh_shapes(False)]
     jobs += [(s, True) for s in families.inh_shapes(True)]
     jobs = common.rotate(jobs, seed)
